@@ -20,6 +20,8 @@ type SynOpts struct {
 	Heavy     bool // favour nesting constructs (functions, blocks) over leaves
 	ASCII     bool // keep string and backtick bodies ASCII-only
 	Plain     bool // lexemes from the fixed pools only (no random identifiers, numbers, string bodies)
+	MaxNodes  int  // size budget per generator (default 1500 nodes): beyond it only leaves are generated, so that generation
+	// terminates for every depth setting (function bodies restart the expression depth, which is supercritical for large depths)
 }
 
 func isASCII(s string) bool {
@@ -32,6 +34,7 @@ func isASCII(s string) bool {
 }
 
 type Syn struct {
+	nodes int
 	R     *rand.Rand
 	O     SynOpts
 	nvar  int
@@ -200,8 +203,20 @@ func (g *Syn) funcExpr(d int) *Node {
 	return n
 }
 
+func (g *Syn) overBudget() bool {
+	g.nodes++
+	max := g.O.MaxNodes
+	if max == 0 {
+		max = 1500
+	}
+	return g.nodes > max
+}
+
 // Expr generates an expression of depth at most d.
 func (g *Syn) Expr(d int) *Node {
+	if g.overBudget() {
+		return g.atom()
+	}
 	if d <= 0 {
 		return g.atom()
 	}
@@ -315,6 +330,9 @@ func (g *Syn) stmts(sd, ed, max int) []*Node {
 
 // Stmt generates one statement.
 func (g *Syn) Stmt(sd, ed int) *Node {
+	if g.overBudget() {
+		return ExprStmt(g.atom())
+	}
 	if ed < 0 {
 		ed = 0
 	}
